@@ -36,6 +36,7 @@ const ctx = {
   shard,
   of,
   compiler: new Compiler(),
+  outPath: out,
   quick: tier === "quick",
   // per-shard share of a total budget
   share(totalQuick, totalThorough) {
